@@ -22,7 +22,7 @@ PLAN = dict(
     assumptions=["operands constructed inside the documented budget (|x|<2^50, min(|a|1|b|inf,|a|inf|b|1)<2^52)",
                  "exact oracle: __int128 schoolbook / Goldilocks-prime NTT"],
     quick=_jobs("quick"), thorough=_jobs("thorough"),
-    fuzz=desc_fuzz("C01", fix=dict(k=(1, 10))),
+    fuzz=desc_fuzz("C01", fix=dict(k=(1, 10)), runs=50000),
     required_classes=dict(all=["E<1/2", "E>=1/2", "path:small_single_product", "path:svp+idft", "path:svp+idft_tmp_a",
                                "cfg:generic", "cfg:full", "res_size>a_size", "a_size=0"] + ["k:%d" % k for k in range(1, 17)]),
 )
